@@ -2,7 +2,7 @@
 (* Bounded exploration of the abstract session state under the catalogue and
    emission of every transition (from-state, item, argument class tuple,
    reference post-state) for replay on the real interpreter.                *)
-EXTENDS SessionModes, TLC, Json
+EXTENDS SessionModes, IOUtils
 
 CONSTANTS MaxDepth,     \* number of state-changing statements on a path
           FullArgs      \* TRUE: full product for 2-slot statements
@@ -11,16 +11,20 @@ VARIABLES st, depth, act
 vars == <<st, depth, act>>
 
 Init == /\ st \in {[Default EXCEPT !.mode = m, !.prog = (m = "run")] : m \in {"direct", "run"}}
-        /\ depth = 0 /\ act = [i |-> 0, a |-> <<>>]
+        /\ depth = 0 /\ act = 0
 
-Exec(i, a) ==
+\* the argument class tuple does not influence the abstract transition, so the graph is explored per statement and
+\* the tuples of every statement are written once (file named by ARGS_FILE); the replayed transitions are the product
+ItemArgs == [i \in Items |-> ArgTuples(Item(i), FullArgs)]
+ASSUME JsonSerialize(IOEnv.ARGS_FILE, ItemArgs)
+
+Exec(i) ==
     LET it == Item(i)
         to == IF HasEffect(it) /\ EffEnabled(st, it) THEN Effect(st, it) ELSE st
-    IN  /\ act' = [i |-> i, a |-> a]
+    IN  /\ act' = i
         /\ st' = to
         /\ depth' = IF to # st THEN depth + 1 ELSE depth
-ItemArgs == TLCEval([i \in Items |-> TLCEval(ArgTuples(Item(i), FullArgs))])      \* evaluated once
-Next == \E i \in Items : Relevant(st, Item(i)) /\ \E a \in ItemArgs[i] : Exec(i, a)
+Next == \E i \in Items : Relevant(st, Item(i)) /\ Exec(i)
 Spec == Init /\ [][Next]_vars
 
 View == st
@@ -28,5 +32,5 @@ Bound == depth <= MaxDepth
 TypeInv == TypeOK(st) /\ Consistent(st)
 
 StTuple(s) == <<s.mode, s.prog, s.trap, s.prot, s.files, s.screen, s.view, s.window, s.ev, s.seg>>
-Emit == PrintT(<<"TRANSITION", ToJson(<<StTuple(st), act'.i, act'.a, StTuple(st')>>)>>)
+Emit == PrintT(<<"TRANSITION", ToJson(<<StTuple(st), act', StTuple(st'), EffectChecked(st, Item(act'))>>)>>)
 =============================================================================
